@@ -624,5 +624,110 @@ Section OneStruct.
     Proof.
       intros n. rewrite portable_run. unfold struct_result. apply run_same_fields. exact coded_entries_perm.
     Qed.
+
+    (* ---- native driver: j2t_write_unset_fields (field cache) + handleUnmatchedFields ---- *)
+    Variable docroot top : bool.
+    Hypothesis root_def : docroot && top = root.
+
+    Definition cached (f : fdesc) : bool := match write_unset_field o docroot f with UCache => true | UDirect _ => false end.
+
+    Lemma native_unset_FR : forall f, In f fs -> B3 f = true ->
+      native_unset o rq conv_text conv_json rec docroot top f = to_wres (f_id f) (FR f).
+    Proof.
+      intros f Hin Hb. rewrite (FR_unset f Hb). rewrite <- root_def. apply native_unset_spec. apply valid_in. exact Hin.
+    Qed.
+
+    Lemma wuf : forall L buf cache, (forall f, In f L -> In f fs /\ B3 f = true) ->
+      write_unset_fields o docroot L buf cache =
+      match run (map E (filter (fun f => negb (cached f)) L)) buf with
+      | WOk b => inl (b, cache ++ map f_id (filter cached L))
+      | WErr c => inr c
+      end.
+    Proof.
+      induction L as [|f r IH]; intros buf cache H; simpl; [rewrite app_nil_r; reflexivity|].
+      assert (Hr : forall g, In g r -> In g fs /\ B3 g = true) by (intros g Hg; apply H; right; exact Hg).
+      destruct (H f (or_introl eq_refl)) as [Hin Hb].
+      pose proof (native_unset_FR f Hin Hb) as Hn. unfold native_unset in Hn. unfold cached.
+      destruct (write_unset_field o docroot f) as [|w] eqn:Ew; simpl.
+      - rewrite (IH buf (cache ++ [f_id f]) Hr). rewrite <- app_assoc. reflexivity.
+      - rewrite Hn. destruct (to_wres (f_id f) (FR f)); [apply IH; exact Hr | reflexivity].
+    Qed.
+
+    Lemma cache_fields : forall L, (forall f, In f L -> In f fs) ->
+      flat_map (fun id => match FieldById fs id with Some f => [f] | None => [] end) (map f_id L) = L.
+    Proof.
+      induction L as [|f r IH]; intros H; simpl; [reflexivity|].
+      rewrite (FieldById_id fs f ids_nodup (H f (or_introl eq_refl))). simpl. f_equal.
+      apply IH. intros g Hg. apply H. right. exact Hg.
+    Qed.
+
+    Definition P3n : list fdesc := filter (fun f => negb (cached f)) P3 ++ filter cached P3.
+
+    Lemma native_run : forall n,
+      fst (native_struct o rq conv_text conv_json rec rec (S n) docroot top fs ms []) =
+      run (map e1 hfs ++ entries2 ms ++ map E P3n) [].
+    Proof.
+      intros n. unfold native_struct.
+      assert (H1 : (if nonempty (HttpMappingFields fs)
+                    then handleHttpMappings o rq conv_text conv_json rec (S n) false fs (Requires fs) []
+                    else HSt (Requires fs) []) = fold_steps o rq conv_text conv_json rec false hfs (Requires fs) []).
+      { rewrite handleHttpMappings_spec. fold hfs. destruct hfs; reflexivity. }
+      rewrite H1. rewrite ph1. rewrite run_app.
+      destruct (run (map e1 hfs) []) as [b1|c]; [|reflexivity]. fold bm1. rewrite run_app.
+      rewrite (ph2 ms bm1 b1 keys_nodup) by (intros m ft Hm Hf; apply bm1_char; apply (FieldByKey_some fs _ _ Hf)).
+      destruct (run (entries2 ms) b1) as [b2|c]; [|reflexivity]. fold bm2.
+      rewrite marked_fields_char. rewrite (wuf P3 b2 [] P3_in_fs).
+      unfold P3n. rewrite map_app, run_app.
+      destruct (run (map E (filter (fun f => negb (cached f)) P3)) b2) as [b3|c]; [|reflexivity].
+      simpl app.
+      assert (Hloop : unmatched_loop o rq conv_text conv_json rec top fs (map f_id (filter cached P3)) b3 =
+                      run (map E (filter cached P3)) b3).
+      { rewrite unmatched_loop_spec. rewrite cache_fields by (intros f Hf; apply filter_In in Hf; apply P3_in_fs; apply Hf).
+        apply wres_loop_run. intros f Hf. apply filter_In in Hf. destruct Hf as [Hf Hc]. apply P3_in_fs in Hf. destruct Hf as [Hin Hb].
+        rewrite <- (native_unset_FR f Hin Hb). unfold native_unset, cached in *.
+        destruct (write_unset_field o docroot f); [reflexivity | discriminate]. }
+      destruct (map f_id (filter cached P3)) as [|i r] eqn:Ec.
+      - simpl. destruct (filter cached P3); [reflexivity | discriminate].
+      - cbn [nonempty]. unfold handleUnmatchedFields. cbn [fst]. exact Hloop.
+    Qed.
+
+    Lemma filter_split_perm : forall (A : Type) (p : A -> bool) (l : list A),
+      Permutation (filter (fun x => negb (p x)) l ++ filter p l) l.
+    Proof.
+      intros A p l. induction l as [|x l IH]; simpl; [constructor|].
+      destruct (p x); simpl.
+      - eapply Permutation_trans; [apply Permutation_sym; apply Permutation_middle | apply perm_skip; exact IH].
+      - apply perm_skip. exact IH.
+    Qed.
+
+    Lemma filter_perm : forall (A : Type) (p : A -> bool) (l1 l2 : list A), Permutation l1 l2 -> Permutation (filter p l1) (filter p l2).
+    Proof.
+      intros A p l1 l2 H. induction H; simpl.
+      - constructor.
+      - destruct (p x); [apply perm_skip|]; exact IHPermutation.
+      - destruct (p x), (p y); try apply perm_swap; apply Permutation_refl.
+      - eapply Permutation_trans; eassumption.
+    Qed.
+
+    Theorem native_struct_refines_table : forall n,
+      same_fields (wres_to_hres (fst (native_struct o rq conv_text conv_json rec rec (S n) docroot top fs ms [])))
+                  (struct_result o Spec rq conv_text conv_json rec root false fs ms).
+    Proof.
+      intros n. rewrite native_run. unfold struct_result. apply run_same_fields.
+      eapply Permutation_trans; [|exact coded_entries_perm].
+      apply filter_perm. apply Permutation_app_head. apply Permutation_app_head. apply Permutation_map.
+      unfold P3n. apply filter_split_perm.
+    Qed.
+
+    (* every hand-back leaves the field cache empty *)
+    Lemma native_struct_cache : forall n,
+      snd (native_struct o rq conv_text conv_json rec rec (S n) docroot top fs ms []) = [].
+    Proof.
+      intros n. unfold native_struct.
+      destruct (if nonempty (HttpMappingFields fs) then _ else _); [|reflexivity].
+      destruct (members_loop _ _ _ _ _ _); [|reflexivity].
+      destruct (write_unset_fields _ _ _ _ _) as [[b c]|c]; [|reflexivity].
+      destruct (nonempty c) eqn:En; [reflexivity | destruct c; [reflexivity | discriminate]].
+    Qed.
   End Root.
 End OneStruct.
